@@ -44,7 +44,9 @@ type SeqCheck struct {
 	// histories always executed (the minimal reproductions of listed findings
 	// and other hand-picked corner cases); every step is judged
 	Probes []emitted
-	// extra drivers (crafted stores, probes) contributing observations
+	// the concurrent half of the property: process-layer scenarios (optional)
+	Proc *ProcCheck
+	// extra drivers contributing observations
 	Extra func(e *Env) ([]*Obs, error)
 }
 
@@ -193,6 +195,16 @@ func (c *SeqCheck) Run(e *Env) (*Outcome, *Evidence, error) {
 		obs = append(obs, o...)
 		histories += ds.Histories
 		cov["probe_steps"] = len(o)
+	}
+	if c.Proc != nil {
+		pc := map[string]any{}
+		o, err := c.Proc.collect(e, pc)
+		if err != nil {
+			return nil, nil, err
+		}
+		obs = append(obs, o...)
+		histories += len(o)
+		cov["concurrent"] = pc
 	}
 	if c.Extra != nil {
 		o, err := c.Extra(e)
